@@ -5,6 +5,25 @@ From AIT Require Import Base.Qx Base.Mdp C02.Model.
 Import ListNotations.
 Local Open Scope Q_scope.
 
+(* ---- well-formedness with discount in (0,1]: finite-horizon values need no strict discounting, so the
+   C02/C04 theorems are stated for this weaker predicate (Base.Mdp.wf_pomdp, with discount < 1, implies it) *)
+Definition wf_mdp1 (m : mdp) : Prop :=
+  (0 < nS m)%nat /\ (0 < nA m)%nat /\ 0 < gam m /\ gam m <= 1 /\
+  length (P m) = nA m /\ length (R m) = nS m /\
+  (forall a, (a < nA m)%nat -> length (nth a (P m) []) = nS m) /\
+  (forall a s, (a < nA m)%nat -> (s < nS m)%nat -> simplex (nS m) (row (nth a (P m) []) s)) /\
+  (forall s, (s < nS m)%nat -> length (row (R m) s) = nA m).
+Definition wf_pomdp1 (m : pomdp) : Prop :=
+  wf_mdp1 (pm m) /\ (0 < nO m)%nat /\ length (Ob m) = nA (pm m) /\
+  (forall a, (a < nA (pm m))%nat -> length (nth a (Ob m) []) = nS (pm m)) /\
+  (forall a s, (a < nA (pm m))%nat -> (s < nS (pm m))%nat -> simplex (nO m) (row (nth a (Ob m) []) s)).
+Definition wf_mdp1b (m : mdp) : bool :=
+  (0 <? nS m)%nat && (0 <? nA m)%nat && negb (Qle_bool (gam m) 0) && Qle_bool (gam m) 1 &&
+  (length (P m) =? nA m)%nat && (length (R m) =? nS m)%nat &&
+  forallb (fun pa => (length pa =? nS m)%nat &&
+                     forallb (fun r => (length r =? nS m)%nat && is_distb r) pa) (P m) &&
+  forallb (fun r => (length r =? nA m)%nat) (R m).
+
 (* ---- symbolic execution of a merge schedule on observation intervals [lo,hi) *)
 Definition sym := option (nat * nat).
 Definition sym_op (sl : list sym) (op : mop) : option (list sym) :=
